@@ -67,6 +67,8 @@ def _c13(ctx):
     out.append(eff.rule_flags(ctx, 'X8', T.BAD_FLAGS))
     from .rules import bounds
     out.append(_x7(ctx, bounds.CODEC_FILES, 50, 35))
+    # functions documented to give the strong guarantee (object unchanged when they throw)
+    out.append(exc.rule_X3m(ctx, {NSP + 'NearestNeighbor::Initialize', NSP + 'NearestNeighbor::Load'}))
     return out
 
 
@@ -84,6 +86,13 @@ def _x7(ctx, files, fl_idx, fl_proved):
     return r
 
 
+def _w1(ctx, prop, floor):
+    from .rules import total
+    r, n = total.rule_W1(ctx, SCOPES[prop], T.W1_AUDITED)
+    r.floor('functions with output arguments', n, floor)
+    return r
+
+
 def _t3(ctx, classes, floor):
     from .rules import tab
     r, n = tab.rule_T3(ctx, classes)
@@ -97,22 +106,23 @@ def _c04(ctx):
     r, n = tab.rule_T4(ctx)
     r.floor('constant relations', n, 10)
     out.append(r)
+    out.append(_w1(ctx, 'C04', 5))
     return out
 
 
 def _c05(ctx):
-    return _exc_rules(ctx, 'C05') + [_t3(ctx, {'MGRS'}, 25), _x7(ctx, ('src/MGRS.cpp',), 15, 8)]
+    return _exc_rules(ctx, 'C05') + [_w1(ctx, 'C05', 3), _t3(ctx, {'MGRS'}, 25), _x7(ctx, ('src/MGRS.cpp',), 15, 8)]
 
 
 def _c10(ctx):
     # binary array I/O lives in Utility.hpp but is not text parsing (it is decided under C13)
     from .rules import tool
     ctx.exclude_q = {'GeographicLib::Utility::readarray', 'GeographicLib::Utility::writearray'}
-    return _exc_rules(ctx, 'C10') + [tool.rule_TOOL(ctx), tool.rule_S1(ctx)]
+    return _exc_rules(ctx, 'C10') + [tool.rule_TOOL(ctx), tool.rule_S1(ctx), _w1(ctx, 'C10', 8)]
 
 
 def _c18(ctx):
-    return _exc_rules(ctx, 'C18') + [_t3(ctx, {'Geohash', 'GARS', 'Georef', 'OSGB'}, 22),
+    return _exc_rules(ctx, 'C18') + [_w1(ctx, 'C18', 7), _t3(ctx, {'Geohash', 'GARS', 'Georef', 'OSGB'}, 22),
                                       _x7(ctx, ('src/Geohash.cpp', 'src/GARS.cpp', 'src/Georef.cpp', 'src/OSGB.cpp'), 25, 20)]
 
 
